@@ -274,7 +274,8 @@ impl HandleRequest for EMAppend {
             .map(|(event_id, timestamp, stream_id)| {
                 let version = stream_current_version.get_mut(&stream_id).unwrap();
                 let stream_version = *version;
-                *version -= 1;
+                // The first event of a new stream has version 0: nothing below it to step to.
+                *version = version.saturating_sub(1);
                 EventInfo {
                     event_id,
                     stream_id,
